@@ -16,6 +16,8 @@ ST = "grin_store::"
 
 
 def run(c):
+    import r9
+    c.r9("C09")
     # --- outer commit follows the extension
     for i, (fn, ext) in enumerate(((CH + "Chain::process_block_single", "grin_chain::pipe::process_block"),
                                    (CH + "Chain::process_block_header", "grin_chain::pipe::process_block_header"),
